@@ -36,6 +36,11 @@ var verifC10Progs = [...][]string{
 	{`param p`, `const n = 5`, `double := func(n) { return n * 2 }`, `[double(21), n, double(p)]`},
 	{`param p`, `const k = 3`, `r := 0`, `if p >= 0 { k := p + 1; r = k * 2 }`, `for _, k in [7] { r += k }`, `[r, k, -k]`},
 	{`param p`, `v := 10`, `f := func() { v := p; return v + 1 }`, `try { throw "x" } catch v { p = p + 0 }`, `g := func(v) { return func() { return v } }`, `[f(), v, g(p)()]`},
+	// 19-20: names of builtins taken by declarations of earlier fragments (const
+	// literals, variables, functions) and used by later fragments in expressions
+	// the optimizer folds
+	{`param p`, `const len = 5`, `x := len + p`, `const bytes = 512`, `[x, bytes * 4, len, -bytes]`},
+	{`param p`, `int := func(x) { return "mine" }`, `const string = 3`, `f := func() { return [int("7"), string * 2] }`, `var bool = 9`, `[f(), bool + 1, int("1")]`},
 }
 
 func verifC10Modules() *ModuleMap {
